@@ -44,7 +44,7 @@ type inclusionOracle struct {
 
 func (io *inclusionOracle) check(step int, what string) bool {
 	n := io.n
-	pers := rawU64(n.Disk, daiKey)
+	pers := sim.RawU64(n.Disk, daiKey)
 	fail := func(oracle, obs, exp string) bool {
 		io.o.Fail(oracle, "", step, what+": "+obs, exp)
 		return false
@@ -175,21 +175,21 @@ func c07Aggregator(t *testing.T, s *sim.Scn, o *sim.Outcome) {
 	if !r.start(-1, "C07") {
 		return
 	}
-	l := newLedger(w, n)
+	l := sim.NewLedger(w, n)
 	w.DA.AutoAdvance = true
 	blobHeights := func(kind int, h uint64) map[uint64]bool {
 		out := map[uint64]bool{}
 		for _, b := range w.DA.AllBlobs() {
-			if in := decodeBlob(b.Data); in.kind == kind && in.height == h {
+			if in := sim.DecodeBlob(b.Data); in.Kind == kind && in.Height == h {
 				out[b.Height] = true
 			}
 		}
 		return out
 	}
 	io := &inclusionOracle{w: w, n: n, o: o, id: "C07",
-		headerOn: func(h uint64) (bool, map[uint64]bool) { _, ok := l.accH[h]; return ok, blobHeights(0, h) },
-		dataOn:   func(h uint64) (bool, map[uint64]bool) { _, ok := l.accD[h]; return ok, blobHeights(1, h) },
-		empty:    func(h uint64) bool { e, _ := l.blockEmpty(h); return e },
+		headerOn: func(h uint64) (bool, map[uint64]bool) { _, ok := l.AccH[h]; return ok, blobHeights(0, h) },
+		dataOn:   func(h uint64) (bool, map[uint64]bool) { _, ok := l.AccD[h]; return ok, blobHeights(1, h) },
+		empty:    func(h uint64) bool { e, _ := l.BlockEmpty(h); return e },
 	}
 	io.shared = func(h uint64) bool {
 		ctx := context.Background()
@@ -207,7 +207,7 @@ func c07Aggregator(t *testing.T, s *sim.Scn, o *sim.Outcome) {
 	}
 	crashed := false
 	after := func(i int, what string) bool {
-		if oracle, msg := l.scan(); oracle != "" {
+		if oracle, msg := l.Scan(); oracle != "" {
 			// submission soundness is C06's subject; a failure here would make the ledger meaningless
 			o.Fail(oracle, "", i, msg, "sound submissions")
 			return false
@@ -279,7 +279,7 @@ func c07Aggregator(t *testing.T, s *sim.Scn, o *sim.Outcome) {
 			return
 		}
 	}
-	if missing := l.allOnDA(); missing != "" {
+	if missing := l.AllOnDA(); missing != "" {
 		o.Count("skipped:not-all-on-da", 1) // C06's subject
 		return
 	}
@@ -337,11 +337,11 @@ func c07Follower(t *testing.T, s *sim.Scn, o *sim.Outcome) {
 		ok := false
 		ft := fetched()
 		for _, b := range w.DA.AllBlobs() {
-			in := decodeBlob(b.Data)
-			if in.kind != kind || in.height != h {
+			in := sim.DecodeBlob(b.Data)
+			if in.Kind != kind || in.Height != h {
 				continue
 			}
-			if kind == 0 && !bytes.Equal(in.hdr.Hash(), blocks[h-1].Header.Hash()) {
+			if kind == 0 && !bytes.Equal(in.Hdr.Hash(), blocks[h-1].Header.Hash()) {
 				continue
 			}
 			heights[b.Height] = true
